@@ -212,9 +212,9 @@ func c06Extra(t *gorm.DB) string {
 	}
 	var cl []string
 	for k, c := range st.Clauses {
-		if c.Expression != nil || k == "ON CONFLICT" {
-			cl = append(cl, k)
-		}
+		// EVERY entry with its shape: entries without an Expression (cleared, hint-decorated, markers) count too
+		cl = append(cl, fmt.Sprintf("%s:%s%s%s%s%s", k, c06xBit(c.Expression != nil), c06xBit(c.BeforeExpression != nil),
+			c06xBit(c.AfterNameExpression != nil), c06xBit(c.AfterExpression != nil), c06xBit(c.Builder != nil)))
 	}
 	sort.Strings(cl)
 	if t.Error == nil { // a failed finisher stops at an arbitrary point of the build
